@@ -188,7 +188,8 @@ def run(tasks, fn_name, job_timeout=120, nproc=None, extra=(), init_name=None, c
                         retried[jk] = retried.get(jk, 0) + 1
                         queue.append((w["optset"], [w["jobs"][cur]]))
                     else:
-                        results.append((w["optset"], w["jobs"][cur], {why: True, "_secs": round(now - w["t"], 1)}))
+                        results.append((w["optset"], w["jobs"][cur], {why: True, "_secs": round(now - w["t"], 1),
+                                                                      "crash": (w.get("crash") or "")[-1500:]}))
                         done_n += 1
                 elif w.get("crash") or boot_stuck:
                     for k in rest:
